@@ -267,6 +267,37 @@ Example C12_raise_example :
   d_csteps (s_d (exec ex_raise_cfg (state_init ex_raise_cfg) ex_raise_ops)) = [0; 2].
 Proof. split; [repeat constructor; simpl; intuition congruence|]. repeat split; vm_compute; reflexivity. Qed.
 
+(* C12_refinement WITHOUT the hypothesis that no reporter raises: for ALL histories the collector state is a function of
+   the collect moments INCLUDING the failed ones.  `events` lists every Collect of the history with its world and the way
+   it ended (decided from the world and the validated flag alone: KInvalid | KModel j | KAgent | KType | KOk):
+     model_vars[n]      = the direct values of reporter n at the moments that reached it (not KInvalid; before j for KModel j)
+     _collection_steps  = the steps of the moments whose model-reporter phase completed
+     _agent_records     = assignment, moment by moment, of the rows of the moments that got that far (KType, KOk)
+     _agenttype_records = likewise, with the classes processed before a failing one for KType
+     tables             = the accepted rows (C12_tables_aligned) *)
+Theorem C12_refinement_general : forall cfg ops,
+  NoDup (map fst (c_mreps cfg)) -> NoDup (map fst (c_tables cfg)) ->
+  refines_g cfg (events cfg world_init false ops) (accepted cfg ops) (s_d (exec cfg (state_init cfg) ops)).
+Proof. exact refinement_general. Qed.
+Print Assumptions C12_refinement_general.
+
+Theorem C12_model_vars_general : forall cfg ops,
+  NoDup (map fst (c_mreps cfg)) -> NoDup (map fst (c_tables cfg)) ->
+  d_mvars (s_d (exec cfg (state_init cfg) ops)) =
+  map (fun p => (fst p, map (fun ev => mval_at (fst ev) (snd p))
+                            (filter (fun ev => k_reached cfg (fst p) (snd ev)) (events cfg world_init false ops))))
+      (c_mreps cfg).
+Proof. intros cfg ops H1 H2. exact (g_mvars _ _ _ _ (refinement_general cfg ops H1 H2)). Qed.
+Print Assumptions C12_model_vars_general.
+
+(* non-vacuity on the raising history of C12_raise_example: three moments, the second ended in reporter 1 raising *)
+Example C12_general_example :
+  map snd (events ex_raise_cfg world_init false ex_raise_ops) = [KOk; KModel 1; KOk] /\
+  csteps_g (events ex_raise_cfg world_init false ex_raise_ops) = [0; 2] /\
+  mvars_g ex_raise_cfg (events ex_raise_cfg world_init false ex_raise_ops)
+    = [(0, [SInt 0; SInt 1; SInt 2]); (1, [SInt 5; SInt 7])].
+Proof. repeat split; vm_compute; reflexivity. Qed.
+
 (* ================= code-level T1: the same statements about the code TRANSLATED from the working tree =================
    gen_* are regenerated from mesa/datacollection.py on every run (harness/tables/datacollect_batch_code.py). *)
 
